@@ -74,11 +74,13 @@ func checkC14(rep *Report, rng *Rng, tier string) {
 		n = 3000
 	}
 	probeNonUTF8Name(rep)
+	dmodelOn = true
 	rep.Rule = "seeded histories over 1-3 collections (names with JSON-escaped characters, 4 comparators, keys of 1..65535 bytes, empty and large values, values containing the magic markers) with flushes, re-opens and reverts; after every successful Flush (and every 7th step) the file bytes are decoded by Disk.decode_store extracted from Coq and compared with the reference state of the last Flush, the decoder's root end must equal the store size, and Disk.conforms_v4 must accept the file; non-trivial = at least one flush"
 	HistoryLoop(rep, rng, n, func(r *Rng, i int) (RunCfg, []Op, string) {
 		d, ops := genC14(r, i)
 		return d.RunCfg(), ops, d.String()
 	}, nil)
+	rep.Extra["steps_compared_with_byte_level_model_DStore"] = dmodelSteps
 }
 
 func genC14(r *Rng, i int) (CfgDesc, []Op) {
@@ -86,6 +88,6 @@ func genC14(r *Rng, i int) (CfgDesc, []Op) {
 		PrioMode: r.Intn(4), BigVals: r.Chance(1, 5), Revert: r.Chance(1, 4), NKeys: 5 + r.Intn(30)}
 	ops := GenHistory(r, g)
 	ops = append(ops, Op{K: "flush"})
-	d := CfgDesc{Check: "C14", FileBacked: true, CmpCB: g.CmpMode == 1, Post: "decode"}
+	d := CfgDesc{Check: "C14", FileBacked: true, CmpCB: g.CmpMode == 1, Post: "decode", Digests: true}
 	return d, ops
 }
